@@ -396,7 +396,7 @@ func build(rng *rand.Rand) ([]byte, string) {
 		e.goodbye()
 	case "preexisting":
 		// the destination already holds: link-dir -> /outside, link-file -> /outside/sentinel, link-rel -> ../../sentinel-dir
-		ln := []string{"link-dir", "link-file", "link-rel", "link-up", "link-dev"}[rng.Intn(5)]
+		ln := []string{"link-dir", "link-file", "link-rel", "link-up", "link-dev", "hl-file", "hl-file"}[rng.Intn(7)]
 		e.filename(ln)
 		switch rng.Intn(3) {
 		case 0:
@@ -508,6 +508,10 @@ func prepareJail(jail string, dstState string) {
 	syscall.Mknod(filepath.Join(jail, "outside/dev13"), syscall.S_IFCHR|0666, 1<<8|3)
 	os.Chmod(filepath.Join(jail, "outside/dev13"), 0666)
 	os.Symlink("/outside/dev13", filepath.Join(jail, "p/q/dst/link-dev"))
+	// a regular file in the destination that is a second (hard) link to a file outside, as snapshot trees made with
+	// cp -al / rsync --link-dest have: rewriting it in place rewrites the outside file
+	os.WriteFile(filepath.Join(jail, "outside/hl-target"), []byte("shared inode\n"), 0666)
+	os.Link(filepath.Join(jail, "outside/hl-target"), filepath.Join(jail, "p/q/dst/hl-file"))
 	// the command line tool needs /dev/null (go-fuse's splice package opens it at start-up)
 	os.Mkdir(filepath.Join(jail, "dev"), 0755)
 	syscall.Mknod(filepath.Join(jail, "dev/null"), syscall.S_IFCHR|0666, 1<<8|3)
